@@ -31,8 +31,8 @@ META = {
     "C09": ("exploration", "4 C09", "seeded simulation: pestle under SimPool schedules vs reference integral"),
     "C10": ("exploration", "4 C10", "seeded simulation: whip under enumerated imap_unordered completion orders vs covering grid"),
     "C11": ("exploration", "4 C11", "seeded simulation: chef (user + Cantera recipes) under SimPool (inline+fork) vs independent evaluation"),
-    "C12": ("exploration", "4 C12", "schedule enumeration (all orders for <=4 tasks per call, W in {1,2,n,16}, eager/lazy) + sampled schedules; output digests equal"),
-    "C13": ("fault_enumeration", "4 C13", "I/O fault enumeration at every open/write/close/mkdir site of each sampled run + audit hook + input snapshots"),
+    "C12": ("exploration", "4 C12", "schedule enumeration (all orders for <=4 tasks per call, W in {1,2,n,16}, eager/lazy) + sampled schedules; output digests equal; task-isolation (I3) and shared-file-offset hazard rules"),
+    "C13": ("fault_enumeration", "4 C13", "I/O fault enumeration at every open/write/close/mkdir site of each sampled run (errno, torn, short, deferred, crash) + unreadable inputs (at open and part-way through a file) + re-run histories; audit hook + input snapshots"),
     "C14": ("exploration", "4 C14", "seeded histories of tool operations on the simulated disk vs composed pure operations"),
     "C15": ("exploration", "4 C15", "seeded simulation: level iteration under SimPool schedules vs reference model"),
     "C16": ("exploration", "4 C16", "seeded simulation with poisoned np.empty and randomised file-split knob: plotfile-format slice vs designed fields"),
